@@ -45,6 +45,10 @@ def menus(prop, tier):
     m3 = [op("J", 1, 2), op("J", 2, 3), op("J", 3, 1), op("A", 2, n=1)]
     plans.append(dict(name="cycle3", NL=3, Writer0=[1, 2, 3], MaxSetup=4, Menu=m3, NProcs=3,
                       FixedSetup=[("A", 1, 1), ("A", 2, 1), ("A", 3, 1), ("J", 1, 3)]))
+    # the symmetric cross-merge with a writer arriving on each log: four goroutines, each running a different operation
+    plans.append(dict(name="cross4", NL=2, Writer0=[1, 2], MaxSetup=2, NProcs=4, Distinct=True, cap=4400,
+                      Menu=[op("J", 1, 2), op("J", 2, 1), op("A", 1, n=1), op("A", 2, n=1)],
+                      FixedSetup=[("A", 1, 1), ("A", 2, 1)]))
     # M=1 holds m1, B=3 merged M and appended on top, A=2 has its own entry; M merges from A while A merges from B
     plans.append(dict(name="relay3", NL=3, Writer0=[1, 2, 3], MaxSetup=4, Menu=[op("J", 1, 2), op("J", 2, 3), op("A", 3, n=1), op("R", 2, acc="ToSnapshot")],
                       NProcs=2 if q else 3, FixedSetup=[("A", 1, 1), ("J", 3, 1), ("A", 3, 1), ("A", 2, 1)]))
@@ -77,7 +81,8 @@ def run_family_k(prop, tier, seed, report, scratch):
     all_scen = []
     for plan in menus(prop, tier):
         consts = {"NL": plan["NL"], "Writer0": plan["Writer0"], "Fn": "LWW", "MaxE": 4, "MaxSetup": plan["MaxSetup"],
-                  "FixedSetup": [list(x) for x in plan.get("FixedSetup", [])], "Menu": None, "NProcs": plan["NProcs"]}
+                  "FixedSetup": [list(x) for x in plan.get("FixedSetup", [])], "Menu": None, "NProcs": plan["NProcs"],
+                  "Distinct": bool(plan.get("Distinct", False))}
         menu_tla = "{" + ", ".join("[op |-> %s, r |-> %d, s |-> %d, n |-> %d, acc |-> %s]" %
                                    (json.dumps(m["op"]), m["r"], m["s"], m["n"], json.dumps(m["acc"])) for m in plan["Menu"]) + "}"
         del consts["Menu"]
@@ -96,7 +101,7 @@ def run_family_k(prop, tier, seed, report, scratch):
         states += res.distinct
         transitions += res.generated
         rnd = random.Random(seed)
-        cap = int(os.environ.get("VERIF_K_CAP", "0")) or (2500 if q else 40000)
+        cap = int(os.environ.get("VERIF_K_CAP", "0")) or plan.get("cap") or (2500 if q else 40000)
         if len(scen) > cap:
             scen = rnd.sample(scen, cap)
         log("  %s: TLC %d generated / %d distinct in %.1fs, %d scenarios" % (plan["name"], res.generated, res.distinct, res.wall, len(scen)))
